@@ -261,7 +261,27 @@ def module_strategy():
         lines += function('', 'function', 1, fresh())
         lines += klass('', 1, fresh())
         lines.append('print(%s)' % ', '.join(READ))
-        return '\n'.join(lines) + '\n'
+        # comments change nothing: plain ones and ones that look like type comments where the type-comment grammar has none
+        # (after a return, a block header, an expression statement, on a line of their own)
+        if draw(st.integers(0, 2)) == 0:
+            out = []
+            for l in lines:
+                k = draw(st.integers(0, 11))
+                if k == 0 and '\n' not in l and not l.rstrip().endswith(('(', '\\', ',')) and '#' not in l:
+                    l = l + draw(st.sampled_from(['  # type: int', '  # type: ignore', '  # noqa', '  # type: (int) -> str', '  # type:']))
+                elif k == 1:
+                    out.append(l[:len(l) - len(l.lstrip())] + draw(st.sampled_from(['# type: str', '# a comment', '# type: List[int]'])))
+                out.append(l)
+            lines = out
+        # line ends: \n, \r\n, a lone \r (classic Mac files, a stray carriage return) - all are line ends for the parser
+        sep = draw(st.sampled_from(['\n', '\n', '\n', '\r\n', '\r']))
+        text = '\n'.join(lines) + '\n'
+        if sep != '\n':
+            text = text.replace('\n', sep)
+        elif draw(st.integers(0, 5)) == 0:
+            head, nl, tail = text.partition('\n')
+            text = head + '\r' + tail               # one stray carriage return
+        return text
     return module()
 
 
